@@ -235,3 +235,43 @@ type fcase struct {
 	Ops []*ref.T  `json:"operands"`
 	Tag string    `json:"tag,omitempty"`
 }
+
+// argGuard snapshots the tracking state, gradient object and element values of tensors handed to a component
+// (Forward / Compute / Accumulate). The returned function reports the first difference: a component call
+// computes a result, it never changes its arguments (values are immutable; only ResetGradContext and
+// BackPropagate change a context).
+func argGuard(ts ...tensor.Tensor) func() string {
+	type snap struct {
+		st   tensor.VerifState
+		ok   bool
+		g    tensor.Tensor
+		vals *ref.T
+	}
+	ss := make([]snap, len(ts))
+	for i, t := range ts {
+		ss[i].st, ss[i].ok = tensor.VerifGradState(t)
+		ss[i].g = t.Gradient()
+		ss[i].vals, _ = rt.Read(t)
+	}
+	return func() string {
+		for i, t := range ts {
+			st, ok := tensor.VerifGradState(t)
+			if ok != ss[i].ok || st != ss[i].st {
+				return fmt.Sprintf("argument %d: tracking state changed from %+v to %+v", i, ss[i].st, st)
+			}
+			if t.Gradient() != ss[i].g {
+				return fmt.Sprintf("argument %d: its gradient object changed", i)
+			}
+			v, err := rt.Read(t)
+			if err != nil || ss[i].vals == nil || !ref.SameShape(v.Shape, ss[i].vals.Shape) {
+				return fmt.Sprintf("argument %d: unreadable or reshaped after the call (%v)", i, err)
+			}
+			for e := range v.Data {
+				if math.Float64bits(v.Data[e]) != math.Float64bits(ss[i].vals.Data[e]) {
+					return fmt.Sprintf("argument %d: element %d changed from %v to %v", i, e, ss[i].vals.Data[e], v.Data[e])
+				}
+			}
+		}
+		return ""
+	}
+}
